@@ -182,3 +182,5 @@ def run(ctx):
         if max(abs(v - vals[0]) for v in vals) > 1e-6 * (abs(vals[0]) + 1):
             ctx.violation(f"PELT(L2Cost): the optimal penalised cost of c*X with penalty c^2*pen is not c^2 times that of X: c = 1, 1e-6, 1e5 give {vals} "
                           f"(after dividing by c^2), n={n} m={m} pen={pen}", {"x": x.ravel().tolist(), "pen": pen, "m": m, "values": vals}, {"what": "homogeneity"})
+    from harness import helpers as _helpers
+    _helpers.pelt_helpers(ctx)
